@@ -56,6 +56,9 @@ func selectByFile(pkgs []*packages.Package, file string) *packages.Package {
 }
 
 func commonPrefix(paths []string) string {
+	if len(paths) == 0 {
+		return ""
+	}
 	index := 0
 	first := paths[0]
 	for ; index < len(first); index++ {
